@@ -3,7 +3,7 @@
    established by the differential run on timed scenarios; what is proved here is the test every timeout decision goes through. *)
 From Coq Require Import ZArith NArith List Bool.
 Import ListNotations.
-From EIO Require Import Server ServerInv ServerProofs ServerCor ServerTiming ServerUpg ServerHb.
+From EIO Require Import Server ServerInv ServerProofs ServerCor ServerTiming ServerUpg ServerHb ServerSvc.
 
 (* a session is found timed out exactly when a PING is outstanding and strictly more than ping_timeout has passed since it *)
 Theorem c07_expired_iff : forall cfg ss t,
@@ -40,8 +40,17 @@ Theorem c07_heartbeat_never_stalls : forall cfg ops, forward_history ops ->
   (exists p, s_lastp ss = Some p) \/ ping_pending cfg s i.
 Proof. exact heartbeat_never_stalls. Qed.
 
+(* for every history and every schedule: with client monitoring configured, the service task that sweeps the sessions for heartbeat
+   time-outs never goes away - it is still to be started (no session has connected yet), about to run for the first time, or
+   waiting for its next visit / its next idle period *)
+Theorem c07_monitor_never_dies : forall cfg ops, c_monitor cfg = true ->
+  let s := fst (run_sched cfg ops (init cfg) []) in
+  svc_pending s = true \/ exists t e, alookup t (tasks s) = Some e /\ monitor_task s t e.
+Proof. exact monitor_never_dies. Qed.
+
 Print Assumptions c07_expired_iff.
 Print Assumptions c07_live_peer_never_dropped.
 Print Assumptions c07_deadline_exact.
 Print Assumptions c07_ping_rearmed.
 Print Assumptions c07_heartbeat_never_stalls.
+Print Assumptions c07_monitor_never_dies.
